@@ -246,6 +246,12 @@ def check_model(fm, out):
         got = lib(getattr(fm, meth))
         want = [c for c, fl in zip(ctcs, flags) if fl]
         q(f"model.{meth}", got, _same_objs(got, want), f"{meth}")
+        if meth == "get_strictcomplex_constraints" and isinstance(got, list):
+            # one-way backstop shared with C18/C17: 'cannot be transformed to a set of simple constraints' is refuted
+            # when every textbook clause transformation yields simple constraints only
+            for c, e in zip(ctcs, exprs):
+                if e is not None and any(c is g for g in got) and logic.is_logical(e) and logic.unanimously_pseudo(e) is True:
+                    out.append(("C03.model.get_strictcomplex_constraints.transformable", logic.canon(e)[:200]))
     return feats, rels
 
 
@@ -386,7 +392,14 @@ def _histories(tier):
     return _bool.edit_histories(hist_profile, 10, with_ctcs=True, formula_edits=True)
 
 
+def enum_big_constraints(tier, seed):
+    from vf.props import c17
+    return [{"model": c["models"][0], "lookups": [], "source": "constructors"} for c in c17.enum_big_constraints(tier, seed)]
+
+
 SUBS = [
+    Sub("big-constraints", check, enum=enum_big_constraints, nontrivial=lambda case: True,
+        classes=lambda case: {"big-constraint"}),
     Sub("edit-histories", check_history, gen=_histories, nontrivial=lambda case: True, classes=classes,
         n={"quick": 150, "thorough": 2000}, essential=["edit:move", "edit:operator-same-kind", "edit:operand-existing"]),
     Sub("constructed", check, gen=gen, nontrivial=nontrivial, classes=classes,
